@@ -37,6 +37,20 @@ CHECKS = {
             "from the documented mathematics. The thorough tier repeats the kernel workloads on an ASan+UBSan overlay.",
             "numpy.linalg.solve; generated Cython C of the pinned .pyx (Cython unavailable: a changed .pyx yields inconclusive); "
             "Cython wrappers are exercised only on equal-length axes (documented domain)", "DESIGN.md §2 C02"),
+    "C05": ("differential monitor at Spectrum.from_phi / from_phi_inbreeding / Numerics.BetaBinomConvolution against the exact integral of binomial x hat-function (O-binhat), explicit trapezoid sums and metamorphic identities",
+            "Random 1-5-D densities and grids (incl. 1e-16 overshoot): semi-analytic path vs exact Gauss-Legendre integration of the "
+            "(multi)linear interpolant; total = trapezoid mass; project/marginalise consistency; linearity; direct and "
+            "het_ascertained paths vs explicit trapezoid sums; admix_props identity and random row-stochastic matrices vs an explicit "
+            "mixed-frequency sum; inbreeding mass, non-negativity and F->0 continuity; beta-binomial convolution sums to one; "
+            "direct-vs-analytic difference falls >=3x per grid doubling.",
+            "Gauss-Legendre order sufficient for exactness; tolerance widened only by the stated conditioning terms "
+            "(eps*L*max|dphi/dx| for the incomplete-beta form, eps*a*ln(a) at a=1/F for log-gamma differences)", "DESIGN.md §2 C05"),
+    "C06": ("differential/invariant monitor at every PhiManip constructor and pulse function against a generic reference (hat-weight deposit + mass normalisation), marginal identities and exception classes",
+            "All constructors and each of the 14 pulse functions with every destination on random densities and five grid kinds, "
+            "proportions from the interior, vertices, edges, exactly representable boundary sums, grid-aligned values and 0; sums "
+            "above 1 by 1e-12..1 must raise. Marginals over the new/destination axis, value-weighted mixture frequency and support, "
+            "pure split = copy, pulse = construct-then-remove, remove/filter/reorder vs explicit weights.",
+            "float left-to-right sum defines membership in the simplex", "DESIGN.md §2 C06"),
     "C07": ("differential monitor at Numerics.make_extrap_func/make_extrap_log_func against the "
             "constant coefficient of synthetic polynomial models (Lagrange oracle), plus O-coal on a real model",
             "Runs the real extrapolation wrappers on hundreds of synthetic models whose grid dependence is a known "
